@@ -607,6 +607,13 @@ def rand_c19(seed, tier, cases=None):
         prev = [rng.randint(0, 255) for _ in range(rng.randint(0, 12))]
         out.append(dict(fam="C19", kind="bytes", bytes=b, prev=prev, tags=dict(ns=0, nlayers=0, shared=False, hasres=False, has_empty_stream=False),
                         **{"class": "rand_bytes"}))
+    # every cut of a seeded sample of the valid encodings (the enumerated truncations take every TruncStride-th encoding only):
+    # cuts inside the stream masks, the temporal-layer bytes, in the middle of a multi-byte LEB128 bitrate, inside the resolution records
+    valid = [c for c in (cases or []) if c.get("kind") == "valid" and str(c.get("class", "")).startswith("ns") and len(c.get("bytes", [])) >= 3]
+    rng.shuffle(valid)
+    for c in valid[:(150 if tier == "quick" else 1500 * TH)]:
+        for cut in range(len(c["bytes"])):
+            out.append(dict(fam="C19", kind="bytes", bytes=c["bytes"][:cut], prev=c.get("prev", []), tags=c["tags"], **{"class": "trunc"}))
     return out
 
 
@@ -800,7 +807,7 @@ def rand_c06(seed, tier, cases=None):
             elif k < 0.75:
                 ops.append(dict(op="skip", len=0, salt=0, samples=smp, n=0))
             elif k < 0.9:
-                ops.append(dict(op="pad", len=0, salt=0, samples=[0, 0, 0, 0], n=rng.randint(1, 3)))
+                ops.append(dict(op="pad", len=0, salt=0, samples=[0, 0, 0, 0], n=rng.choice([0, 1, 1, 2, 3])))
             else:
                 ops.append(dict(op="enable", len=0, salt=0, samples=[0, 0, 0, 0], n=rng.choice([0, 1, 5, 14, 15, 200])))
         out.append(dict(fam="C06", mtu=mtu, pt=rng.randint(0, 127), ssrc=[rng.randint(0, 255) for _ in range(4)],
@@ -1216,7 +1223,7 @@ def rand_c12(seed, tier, cases=None):
                                                     rng.choice([1, 2, 3, 4]) * mtu - rng.randint(0, 30)]), salt=rng.randint(0, 200), fillv=rng.choice([-1, -1, 255, 0, rng.randint(0, 255)])))
         for f in frames:
             f["body"] = max(0, f["body"])
-        out.append(dict(fam="C12", kind="payload", valid=True, mtu=mtu, flexible=rng.random() < 0.5, startid=rng.choice([0, 32767, 32766, rng.randint(0, 32767)]),
+        out.append(dict(fam="C12", kind="payload", valid=True, mtu=mtu, flexible=rng.random() < 0.5, startid=rng.choice([0, 32767, 32766, rng.randint(0, 32767), -1]),      # -1: the payloader's own default start (no InitialPictureIDFn)
                         frames=frames, **{"class": "rand_payload"}))
     # one frame of about 17 MB (beyond 2^24 bytes) through payloader and receiver (lengths and equality facts only)
     for flex in (True, False):
